@@ -134,6 +134,7 @@ type Loop struct {
 	Kind int
 	K    *Var
 	N    int64
+	Le   bool // KFor only: the bound is spelled "$k <= N-1" instead of "$k < N"
 	Body []Stmt
 	// foreach
 	Over   []ForeachItem // literal items
